@@ -126,16 +126,22 @@ def run(chk, replay):
             # the application submits the next message for the same destination while the job thread is held: it is
             # either refused (pair busy) or accepted - and then delivered like any other
             sc2 = dict(sc, expect=dict(sc["expect"]))
-            t_first = min(t for t in p0.point_time.values())
             last = {}
             for pt in pts:                # quick: each source line once, at its LAST execution during the transfer (where
                 if pt[:3] not in last or pt[3] > last[pt[:3]][3]:      # sessions are retired); thorough: every execution
                     last[pt[:3]] = pt
+            i_api = min(i for i, e in enumerate(tr0["ev"]) if e["ev"] == "api")
+            startup = {pt for pt in pts if p0.point_ev[pt] <= i_api}      # the job threads' very first pass, before any submission
+            first = {}
+            for pt in pts:                # ... and at its FIRST execution after the start (sessions waiting for the first answer)
+                if pt not in startup and (pt[:3] not in first or pt[3] < first[pt[:3]][3]):
+                    first[pt[:3]] = pt
             for i, pt in enumerate(pts):
-                if p0.point_time[pt] == t_first or (quick and last[pt[:3]] != pt):
+                if pt in startup:
                     continue              # (not the start-up pass: the transfer has not begun, the other stacks do not exist yet)
-                traces.append(preempt.run(sc2, pt, 1000, during=follow_up(sc))[0])
-                if name == "cm1":
+                if not quick or last[pt[:3]] == pt:
+                    traces.append(preempt.run(sc2, pt, 1000, during=follow_up(sc))[0])
+                if name == "cm1" and (not quick or first.get(pt[:3]) == pt or last[pt[:3]] == pt):
                     # the peer aborts the connection while the thread is held: whatever becomes of the transfer, the job
                     # thread survives and both sides are idle in the end
                     sc3 = dict(sc, hostile=True, expect={"all": False, "idle": True, "free": True, "bus": False, "dm": False})
